@@ -36,6 +36,7 @@ def check(ctx: Ctx):
     locate.check_merge(ctx)
     locate.check_cylindrical(ctx)
     locate.check_spherical(ctx)
+    locate.check_label_connectivity(ctx)
     for cname in ("SphericalDroplet", "DiffuseDroplet"):
         render.check_renderer(ctx, cname, rules=("DIST", "SHARP"))
     render.check_polar(ctx, rules=("METRIC",))
@@ -51,6 +52,7 @@ def check(ctx: Ctx):
     table = c12.formulas(ctx)
     c12.identities(ctx, table)
     ctx.expect("FRAME", 3)
+    ctx.expect("CONNECT", 3)
     ctx.expect("DIM", 3)
     ctx.expect("FLOW", 6)
     ctx.expect("MERGE", 6)
